@@ -8,8 +8,11 @@ file and the helper outputs, with fixed precedence (spec/OciAuthFile.tla).
 2. The harness renders configurations (TLC's and seeded-random ones over more hosts, key forms
    and odd base64) to config files, loads each 20 times with ociauth.LoadWithEnv (fresh decode:
    Go's map order varies), queries hosts in rotating orders and logs every result; helper
-   behaviours come from a scripted HelperRunner and, for a subset, from real
-   docker-credential-* programs run by ExecHelperWithEnv.
+   behaviours (full answers, tokens, nothing found, missing binary, errors, JSON answers with
+   members left out, answers that depend on the host) come from a scripted HelperRunner and, for
+   a subset, from real docker-credential-* programs - through a wrapped ExecHelperWithEnv and
+   through the DEFAULT runner LoadWithEnv makes itself, several hosts (forwards, a repeat, then
+   backwards) on one ConfigFile value.
 3. TLC validates every logged load and lookup against Lookup(cfg, host) (direction B)."""
 import concurrent.futures as cf
 import json
@@ -42,6 +45,13 @@ def model_and_cases(ctx, cfg, what, timeout):
 
 def uses_helper(c):
     return bool(c['cfg']['credsStore']) or any(h['helper'] for h in c['cfg']['credHelpers'])
+
+
+PARTIAL = {'useronly', 'secretonly', 'emptyobj', 'urlonly', 'extra', 'mixed'}
+
+
+def has_partial(c):
+    return any(v['kind'] in PARTIAL for v in c['cfg']['helpers'].values())
 
 
 def write_cases(ctx, cases, name):
@@ -205,7 +215,8 @@ def run(ctx):
     quick = ctx.tier == 'quick'
     if quick:
         cases = model_and_cases(ctx, 'OciAuthFileMC_quick.cfg', '<=3 of 6 key forms for h1 x 4 credential kinds (the empty entry {} included), h2 key and helper setup in 4 combinations; '
-                                '4 tables x per-host helper {absent, empty, A} x store on/off x 5x5 helper behaviours', 300)
+                                '4 tables x per-host helper {absent, empty, A} x store on/off x 5x5 helper behaviours; 2 tables x per-host helper {absent, h1:A, h2:A} x '
+                                '11x11 helper behaviours (answers with members left out)', 300)
     else:
         cases = model_and_cases(ctx, 'OciAuthFileMC_thorough.cfg', '<=3 of 6 key forms for h1 x 9 credential kinds (empty and email-only entries, undecodable auth fields included), '
                                 'h2 key on/off, 3 helper setups; helper family as in quick', 600)
@@ -219,15 +230,18 @@ def run(ctx):
                                           what='control: ambiguity test before collision test -> Deterministic violated (expected)'))
         ctx.log('control OciAuthFileMC_f13.cfg: Deterministic violated as expected (%.1fs)' % r['wall'])
     rnd = random.Random(ctx.seed)
+    partial = [c for c in cases if uses_helper(c) and has_partial(c)]   # helper answers with members left out
     if quick:
         sens = [c for c in cases if c['sens']]
-        helper = [c for c in cases if uses_helper(c) and not c['sens']]
+        helper = [c for c in cases if uses_helper(c) and not c['sens'] and not has_partial(c)]
         rest = [c for c in cases if not c['sens'] and not uses_helper(c)]
-        chosen = rnd.sample(sens, min(400, len(sens))) + rnd.sample(helper, min(250, len(helper))) + rnd.sample(rest, min(150, len(rest)))
+        chosen = (rnd.sample(sens, min(400, len(sens))) + rnd.sample(helper, min(200, len(helper)))
+                  + rnd.sample(partial, min(150, len(partial))) + rnd.sample(rest, min(150, len(rest))))
     else:
         chosen = rnd.sample(cases, min(9000, len(cases)))   # (all of them are model-checked; a seeded sample is executed)
-    execs = [c for c in chosen if uses_helper(c)]
-    execs = rnd.sample(execs, min(100 if quick else 1000, len(execs)))
+    # with real helper programs, through the wrapped and the default runner alternately
+    others = [c for c in chosen if uses_helper(c) and not has_partial(c)]
+    execs = rnd.sample(partial, min(60 if quick else 500, len(partial))) + rnd.sample(others, min(40 if quick else 700, len(others)))
     vh = vlib.build_harness(ctx)
     td = ctx.sub('traces')
     traces = []
@@ -237,7 +251,7 @@ def run(ctx):
         run_authfile(ctx, vh, t, cases=write_cases(ctx, chosen[i:i + per], 'cases%d.jsonl' % i))
         traces.append(t)
     t = os.path.join(td, 'exec.ndjson')
-    run_authfile(ctx, vh, t, cases=write_cases(ctx, execs, 'exec.jsonl'), decodes=2, mode='exec')
+    run_authfile(ctx, vh, t, cases=write_cases(ctx, execs, 'exec.jsonl'), decodes=2 if quick else 4, mode='exec')
     traces.append(t)
     nrand = 200 if quick else 3000
     i = 0
